@@ -33,6 +33,17 @@ func c20WantArgs() []any {
 
 // HarnessC20Registry: histories of Register*/call operations over symbolic names and the five receiver types.
 func HarnessC20Registry() {
+	// a Template loaded (and used once) before any registration: calls through it see later registrations too
+	vfsReset()
+	for _, n := range []string{"a", "b", "c", "len"} {
+		vfsWriteFile("templates/c"+n+".tw", "{{ v."+n+"("+c20Args+") }}")
+	}
+	vfsWriteFile("templates/plain.tw", "plain")
+	tpl, lerr := newTemplate("templates", ".tw")
+	vAssert(lerr == nil && tpl != nil, "templates-load")
+	if first, ferr := tpl.String("plain", nil); ferr != nil || first != "plain" {
+		vFail("plain-page-renders")
+	}
 	k := vParam("K")
 	registry := [5]map[string]int{{}, {}, {}, {}, {}}
 	var last *c20Call
@@ -84,7 +95,11 @@ func HarnessC20Registry() {
 		// call on a literal receiver, or on a variable holding the same value
 		src := "{{ " + c20Recv[t] + "." + name + "(" + c20Args + ") }}"
 		var data map[string]any
-		switch vChoice("via", 4) {
+		throughTemplate := false
+		switch vChoice("via", 5) {
+		case 4: // through the Template that was loaded before the registrations, receiver from the Go data
+			data = map[string]any{"v": []any{"r", []any{1, "x"}, 5, 2.5, true}[t]}
+			throughTemplate = true
 		case 1: // a template variable
 			src = "{{ v = " + c20Recv[t] + " }}{{ v." + name + "(" + c20Args + ") }}"
 		case 2: // a value that comes from the Go data
@@ -94,7 +109,17 @@ func HarnessC20Registry() {
 			src = "{{ " + []string{"\"R\".lower()", "[1].append(\"x\")", "(2 + 3)", "(2.0 + 0.5)", "[1, 2].contains(2)"}[t] + "." + name + "(" + c20Args + ") }}"
 		}
 		last = nil
-		out, err := EvaluateString(src, data)
+		var out string
+		var err error
+		if throughTemplate {
+			o, e := tpl.String("c"+name, data)
+			out = o
+			if e != nil {
+				err = e.Error()
+			}
+		} else {
+			out, err = EvaluateString(src, data)
+		}
 		tag, registered := registry[t][name]
 		switch {
 		case name == "len" && c20HasLen[t]:
